@@ -6,6 +6,7 @@ import (
 	"fmt"
 	"math"
 	"math/big"
+	"time"
 
 	"github.com/gebn/bmc"
 	"github.com/gebn/bmc/pkg/ipmi"
@@ -68,6 +69,7 @@ func newC15World() *c15World {
 	if err != nil {
 		panic("C15 harness: handshake failed: " + err.Error())
 	}
+	w.T.MaxAttempts = 200
 	return &c15World{w: w, sess: sess}
 }
 
@@ -80,7 +82,7 @@ func c15Record(c c15Case) []byte {
 	d[15] = byte(c.Fmt) << 6
 	d[16] = 0x01
 	if c.EvType != 0 {
-		d[16] = byte(c.EvType)
+		d[8] = byte(c.EvType) // event/reading type code (43.1 byte 14)
 	}
 	d[18] = byte(c.Lin) & 0x7f
 	m, b := uint16(c.M)&0x3ff, uint16(c.B)&0x3ff
@@ -294,6 +296,7 @@ func runC15(r *rep.R) {
 	r.SetRule("a case is (raw byte, analog format, linearisation, M, B, K1, K2, flags byte): the reference encodes a Full Sensor Record, the library decodes it, builds a reader and reads through a real session from the reference BMC serving the raw and flags bytes; raw 0..255 x 3 formats x 12 functions are complete for every factor set; M and B run over all 1024 values (thorough; boundary sets in quick), K1 x K2 over all 256 pairs, flags over all 256 values; oracle: exact rational evaluation (math/big) with a forward error bound, interval evaluation through L. distinct = distinct cases")
 	cw := newC15World()
 	var idx int64
+	slowFailures := 0
 	do := func(c c15Case) {
 		if !c.hasPrev {
 			c.Prev = -1
@@ -302,7 +305,19 @@ func runC15(r *rep.R) {
 		if !r.Mine(idx) {
 			return
 		}
+		if slowFailures > 40 {
+			return // see below
+		}
+		t0 := time.Now()
 		k, msg, out := c15One(cw, c)
+		if k != "" && time.Since(t0) > 20*time.Millisecond {
+			// a failing read that also costs a retry storm: a library in that state
+			// fails the same way on the remaining millions of cases, which adds
+			// nothing but hours
+			if slowFailures++; slowFailures > 40 {
+				r.Cap("shard stopped after 40 violating cases that each ran into the transmission cap")
+			}
+		}
 		r.Eval(rep.H(fmt.Sprint(c)), out != "linearised-at-singularity-not-judged")
 		if k != "" {
 			r.Outcome("violation")
